@@ -274,6 +274,7 @@ def allstates(repo, res, rule="ALLSTATES"):
 
 
 def isocov(repo, res, rule="ISOCOV"):
+    _REPO[0] = repo
     for fq in ("tables::LookupTables::isomorphic_to", "tables::LookupTables::shape_hash"):
         fn = repo.fn(fq)
         if fn is None:
@@ -292,7 +293,11 @@ def isocov(repo, res, rule="ISOCOV"):
         for mod in RE.EMITTERS:
             shape = repo.fn(f"{mod}::write_subword_shape_fn")
             if shape is None:
-                res.undecided(rule, f"{rule}:{mod}:shape-fn", "write_subword_shape_fn not found")
+                # written in place: whatever the script writer (and what it calls) prints of a table set is taken as shared -- a
+                # superset of what the shape function printed
+                shape = repo.fn(f"{mod}::write_completion_script")
+            if shape is None:
+                res.undecided(rule, f"{rule}:{mod}:shape-fn", "neither write_subword_shape_fn nor write_completion_script found")
                 continue
             callees = [shape]
             for c in P.find_calls(shape.body):
@@ -308,6 +313,11 @@ def isocov(repo, res, rule="ISOCOV"):
                         bt = TY.strip(tyr.of(n["base"], envs.get(id(n))))
                         if bt in ("MatchTransitions", "CompletionTransitions"):
                             printed.setdefault(bt, {}).setdefault(n["member"], set()).add(mod)
+                    elif n["k"] == "PStruct" and P.last(n["path"]) in ("MatchTransitions", "CompletionTransitions"):
+                        # the table set taken apart by a pattern: every field given a name is used
+                        for fl_ in n["fields"]:
+                            if fl_["pat"]["k"] != "PWild":
+                                printed.setdefault(P.last(n["path"]), {}).setdefault(fl_["name"], set()).add(mod)
         is_hash = fq.endswith("shape_hash")
         for st, fields in sorted(printed.items()):
             for f, mods in sorted(fields.items()):
@@ -345,11 +355,24 @@ def _names_in(n):
     return {x["path"] for x in A.walk(n) if x["k"] == "Path" and "::" not in x["path"]}
 
 
+_REPO = [None]
+
+
 def compared(fn, st, f):
     """isomorphic_to: field f of struct st is bound on both sides and the two bindings meet in one ==/!= comparison that comes
     after both patterns and before the names are bound again."""
     pats = sorted((n for n in A.walk(fn.body) if n["k"] == "PStruct" and P.last(n["path"]) == st), key=A.pos)
     if len(pats) != 2:
+        # .. or the two values are compared whole, with the comparison the compiler derives (every field takes part)
+        sd = _REPO[0].struct(st) if _REPO[0] is not None else None
+        if sd is not None and "PartialEq" in (sd.get("derives") or []):
+            tyr = TY.Typer(_REPO[0], RE.ROARING_DIMS)
+            envs = A.collect_envs(fn)
+            for n in A.walk(fn.body):
+                if n["k"] == "Binary" and n["op"] in ("==", "!="):
+                    lt, rt = TY.strip(tyr.of(n["left"], envs.get(id(n)))), TY.strip(tyr.of(n["right"], envs.get(id(n))))
+                    if lt == st and rt == st:
+                        return True, f"whole {st} values compared with the derived PartialEq"
         return False, f"{len(pats)} destructurings of {st} (expected one per side)"
     names = []
     for pt in pats:
